@@ -7,7 +7,7 @@ EXTENDS Inbound, Json
 CONSTANTS Depth
 VARIABLES hist
 Rec(r) == hist' = Append(hist, r)
-GHosts == [m \in Msgs |-> CASE m = "m1" -> {1, 2} [] m = "m2" -> {2} [] m = "m3" -> {1} [] OTHER -> {}]
+GHosts == [m \in Msgs |-> CASE m = "m1" -> {1, 2} [] m = "m2" -> {2} [] m = "m3" -> {1} [] m = "m5" -> {2, 3} \cap Node [] OTHER -> {}]
 GNodeOf == [c \in Client |-> IF c = "c1" THEN 1 ELSE 2]
 Busy == reqs # {}
 GInit == Init /\ hist = <<>>
